@@ -508,6 +508,13 @@ def gen_guards():
               "sequence_execution.rs `if size_after_seq OP u64::from(MAX_BLOCK_SIZE) {` before a sequence is expanded (then-branch = reject)"))
     G.append(("execRestTooLarge", guard(ex, r"if\s+seq_sum as usize\s*\+\s*rest_literals\.len\(\)\s*" + OPRE + r"\s*MAX_BLOCK_SIZE as usize\s*\{", "seq_sum + rest_literals ? MAX_BLOCK_SIZE"),
               "sequence_execution.rs `if seq_sum as usize + rest_literals.len() OP MAX_BLOCK_SIZE as usize {` before the trailing literals are pushed (then-branch = reject)"))
+    # the zero-offset check of execute_sequences (anchored to the whole condition: `if a && b && actual_offset == 0` must NOT match)
+    G.append(("execZeroOffset", guard(ex, r"if\s+actual_offset\s*" + OPRE + r"\s*0\s*\{\s*return\s+Err\(\s*ExecuteSequencesError::ZeroOffset\s*\)", "actual_offset ? 0 => ZeroOffset"),
+              "sequence_execution.rs `if actual_offset OP 0 { return Err(ZeroOffset) }` after the offset history step (then-branch = reject)"))
+    # how far a match may reach into the dictionary content
+    dbuf = strip_comments(read("ruzstd/src/decoding/decode_buffer.rs"))
+    G.append(("dictReachTooFar", guard(fn_body(dbuf, "repeat_from_dict", "guards"), r"if\s+bytes_from_dict\s*" + OPRE + r"\s*self\.dict_content\.len\(\)\s*\{", "bytes_from_dict ? dict_content.len()"),
+              "decode_buffer.rs repeat_from_dict `if bytes_from_dict OP self.dict_content.len() {` (then-branch = reject: the match starts before the dictionary content)"))
     m = re.search(r"if\s+compressed_size\s*(?P<op1>>=|<=|==|!=|>|<)\s*block_size as usize\s*\|\|\s*compressed_size\s*(?P<op2>>=|<=|==|!=|>|<)\s*MAX_BLOCK_SIZE as usize", fa)
     if not m:
         raise ExtractError("extract:guards:compress_fastest raw fallback")
